@@ -42,10 +42,14 @@ SIGS = {
 RETS = ["single", "tuple_in", "list", "dict", "tuple_const", "dict_const", "input_only"]
 
 
-def inner_prog(name, sig, ret):
+def inner_prog(name, sig, ret, kwidx=False):
     params = SIGS[sig]
     b = P("b") if len(params) > 1 else C(10)
     body = [call("add", [P("a"), b], "w0"), call("inc", [Vv("w0")], "w1")]
+    if kwidx:
+        # indexed / unpacked values passed by keyword between inner nodes
+        body = [call("pair", [P("a")], "q"), call("add", [Vv("q", 0)], "w0", kwargs={"y": Vv("q", 1)}),
+                call("mkd", [b], "m"), call("add", [Vv("w0")], "w1", kwargs={"y": Vv("m", "l", 1)})]
     r = {
         "single": ["atom", Vv("w1")],
         "tuple_in": ["tuple", [Vv("w1"), P("a")]],
@@ -115,6 +119,15 @@ def cases(tier: str):
                     subs = [inner] + ([TAIL] if use == "to_subdag" else [])
                     yield dict(fam="A", sig=sig, ret=ret, use=use,
                                prog={"name": "main", "params": [["x", NODEFAULT]], "body": body, "ret": rspec, "subs": subs})
+    # A2. inner nodes exchange indexed values by keyword
+    for sig in SIGS:
+        for ret in ("single", "tuple_in", "dict"):
+            inner = inner_prog("inner", sig, ret, kwidx=True)
+            for args in call_forms(sig)[::3]:
+                for use, stmts, rspec in list(outer_uses(ret))[:2]:
+                    pre = [call("inc", [P("x")], "o0"), call("pair", [P("x")], "o1")]
+                    yield dict(fam="A2", sig=sig, ret=ret, use=use,
+                               prog={"name": "main", "params": [["x", NODEFAULT]], "body": pre + [sub("inner", args, "r")] + stmts, "ret": rspec, "subs": [inner]})
     # B. depth 2 and 3
     for sig in SIGS:
         for ret in ("single", "tuple_in", "dict"):
